@@ -41,6 +41,10 @@ JudgeFault(b, e) ==
        C20_nothing_left_behind_retry_equals_fault_free_run |-> G(aborts /\ e.retry.done, e.retry.ok /\ SameState(e.retry.post, b.post)),
        C20_failed_refund_does_not_block_the_close |-> G(refund, e.ok /\ SwallowedState(b, e.k, e.post)),
        C20_only_the_fault_matters |-> G(~inside, e.ok /\ SameState(e.post, b.post)),
+       \* a claim is atomic with its payout: under a failing transfer it either fails, or it paid what the fault-free claim pays
+       C07_claim_pays_in_full_or_fails |-> G(b.kind = "fm_claim_two_denoms" /\ inside, ~e.ok \/ e.post.bal[b.sender] = b.post.bal[b.sender]),
+       C06_failed_claim_keeps_the_rewards_claimable |-> G(b.kind = "fm_claim_two_denoms" /\ inside /\ e.retry.done,
+                                                         e.retry.ok /\ e.retry.post.bal[b.sender] = b.post.bal[b.sender]),
        C14_single_asset_deposit_all_or_nothing |-> G(b.single /\ inside, ~e.ok /\ e.digest_same /\ ~e.post.pm_buffer),
        C14_single_asset_no_residue_after_failure |-> G(b.single /\ inside /\ e.retry.done, e.retry.ok /\ SameState(e.retry.post, b.post) /\ ~e.retry.post.pm_buffer) ]
 
@@ -52,7 +56,7 @@ Step == /\ l <= Len(Rec)
                        [] e.ev = "fault" -> JudgeFault(base, e)
            IN /\ Report(e.i, e.sc, gs) /\ cnt' = Count(cnt, gs)
               /\ base' = IF e.ev = "fault_base" THEN [set |-> TRUE, kind |-> e.kind, ncalls |-> e.ncalls, calls |-> e.calls, closed |-> e.closed,
-                                                      pre |-> e.pre, post |-> e.post, single |-> e.single] ELSE base
+                                                      pre |-> e.pre, post |-> e.post, single |-> e.single, sender |-> e.sender] ELSE base
         /\ l' = l + 1
 Finish == l = Len(Rec) + 1 /\ PrintCounts(cnt) /\ l' = l + 1 /\ UNCHANGED <<cnt, base>>
 Spec == Init /\ [][Step \/ Finish]_vars
